@@ -16,8 +16,9 @@ Colang 2.x (lark grammar + PythonIndenter; scanner `scan_v2`)
 Colang 1.0 (`get_numbered_lines`; scanner `scan_v1`)
   * interior and closing lines of a multi-line "..." string and of a \"\"\" block are never
     edited or re-indented, nor is anything appended to the line that opens such a string;
-  * a line joined to its predecessor by a trailing `\\` or ` or` is part of one logical
-    line: no blank line is inserted before it, and nothing is appended after a `\\`;
+  * a line joined to its predecessor by a trailing `\\` is part of one logical line: no blank line is
+    inserted before it, and nothing is appended after a `\\`; a line joined by a trailing ` or` (an operator that
+    announces the next line) may be preceded by blank lines like any other line;
   * no comments are added (comments can carry meaning in 1.0);
   * only blanks count as indentation in 1.0 (a tab is text), files with tabs in leading
     whitespace are not scaled;
@@ -234,7 +235,8 @@ def positions(ver, text, kind):
     if kind == "strtrail":
         return [j for j in range(n) if info[j][1] or (info[j][0] and not _v1_closes(lines, info, j))]
     if kind in BLANK:
-        ps = [j for j in range(n) if not info[j][0] and not info[j][2]]
+        # (a line joined to its predecessor by a trailing ` or` may be preceded by a blank line; one joined by a `\\` may not)
+        ps = [j for j in range(n) if not info[j][0] and not (info[j][2] and (j == 0 or info[j - 1][3]))]
         # appending at the end is fine unless the last line opens / continues something
         last = info[-1]
         if not last[1] and not last[3] and not _v1_open_at_end(lines, info):
